@@ -6,7 +6,7 @@ import json, os, random
 import vlib, seqeng
 from c01 import witnesses, report_bad
 
-BASE_KEYS = [[1, 7, 7, 0, 9, 0, 3, 3], [1, 7, 7, 0, 9, 0, 3, 4], [2, 5, 5, 5, 5, 5, 5, 5]]
+BASE_KEYS = [[1, 7, 7, 0, 9, 0, 3, 3], [1, 7, 7, 0, 9, 0, 3, 4], [2, 7, 7, 0, 9, 0, 3, 3]]
 
 SPECS = {
  "C04": dict(
@@ -18,7 +18,7 @@ SPECS = {
     what="GC cycles (index GC scan-free on/off, primary GC with low-use thresholds 0/50/85/101, deterministic time limits that stop a cycle at its n-th check) interleaved at arbitrary positions"),
  "C02": dict(
     own_ops={"reopen"},
-    weights=["put"] * 5 + ["rem"] * 2 + ["flush"] * 2 + ["reopen"] * 3 + ["idxgc", "prigc", "get"],
+    weights=["put"] * 6 + ["rem"] * 2 + ["flush"] * 4 + ["reopen"] * 3 + ["idxgc"] * 3 + ["prigc"] * 2 + ["get"],
     bfs_weights=["put", "rem", "flush", "reopen"], bfs_nk=2, bfs_nv=2,
     deadlines=(0, 2), lowuses=(0, 85), bitsset=(8,),
     primaries=("mh", "mh", "cid"), limits=(30, 70, 200, 1 << 30),
@@ -88,7 +88,7 @@ def run(pid):
     rep.add_model(r)
     hs = [h for h in hs if any(o["op"] in spec["own_ops"] for o in h)]
     cfgs = [dict(primary="mh", bits=8, il=30, pl=30, imm=False, keys=BASE_KEYS[:2], vals=["empty", "b5"], cmp=True, probe="all"),
-            dict(primary="mh", bits=8, il=70, pl=70, imm=False, keys=BASE_KEYS[:2], vals=["a1", "c40"], cmp=True, probe="end")]
+            dict(primary="mh", bits=8, il=70, pl=70, imm=False, keys=[BASE_KEYS[0], BASE_KEYS[2]], vals=["a1", "c40"], cmp=True, probe="end")]
     if thorough:
         cfgs.append(dict(primary="cid", bits=8, il=30, pl=30, imm=False, keys=BASE_KEYS[:2], vals=["nil", "b5"], cmp=True, probe="all"))
     scens = [{"cfg": c, "ops": fix_ops(c, h)} for c in cfgs for h in hs]
@@ -102,7 +102,7 @@ def run(pid):
     rep.cov["samples"] = [scens[len(scens) // 2]["ops"]]
     # 2. TLC -simulate walks under a configuration sweep
     nsim, depth = (20000, 80) if thorough else (1200, 50)
-    consts = seqeng.kv_consts(5, spec["weights"], depth, deadlines=spec["deadlines"], lowuses=spec["lowuses"], bitsset=bitsset)
+    consts = seqeng.kv_consts(6, spec["weights"], depth, deadlines=spec["deadlines"], lowuses=spec["lowuses"], bitsset=bitsset)
     hs2, r2 = seqeng.gen_histories(consts, "sim", num=nsim, seed=vlib.seed())
     rep.cov["transitions"] += r2.states
     cfgl = seqeng.sweep(rng, 64, primaries=spec["primaries"], limits=spec["limits"], imm=(False, False, False, True))
